@@ -8,7 +8,7 @@ from drivers import gwcommon as gc
 from drivers import gwmodel, gwprograms
 from sim import gwrun
 
-LINE_FUNCS = ["new", "newchannel", "remote_exec", "load_channel", "_no_longer_opened", "close", "__init__", "setcallback", "_local_close"]
+LINE_FUNCS = ["new", "newchannel", "remote_exec", "remote_status", "load_channel", "_no_longer_opened", "close", "__init__", "setcallback", "_local_close", "reconfigure"]
 
 
 def run(ctx):
@@ -17,8 +17,12 @@ def run(ctx):
     progs = gwprograms.c18_programs(rng, 8 if ctx.quick else 60)
     opts = [{"post_yields": True}, {"post_yields": True, "chunking": "random"}, {"post_yields": False},
             {"post_yields": True, "line_level": LINE_FUNCS}]
+    # the whole family once more on a gateway whose string coercion was reconfigured (nothing about channels, closes, errors or
+    # remote_exec may depend on the coercion switches)
+    opts.append({"post_yields": True, "reconfigure": (False, True)})
     if not ctx.quick:
         opts.append({"post_yields": True, "transport": "socket", "chunking": "random"})
+        opts.append({"post_yields": False, "reconfigure": (True, True)})
     jobs = gc.jobs_for(progs, 24 if ctx.quick else 120, 10 if ctx.quick else 40, ctx.seed, opts)
     # preemption-bounded systematic search (every schedule with <= 1 preemption, yields before and after each operation)
     searches = [(p, 1, 250 if ctx.quick else 6000, {"post_yields": True}) for p in progs[: 6 if ctx.quick else 14]]
